@@ -12,7 +12,7 @@ import time
 from . import build, run
 
 VERIF = build.VERIF
-EVID = os.path.join(VERIF, 'evidence')
+EVID = os.environ.get('COVFIE_SIM_EVIDENCE', os.path.join(VERIF, 'evidence'))
 REPLAYS = os.path.join(EVID, 'replays')
 KNOWN = os.path.join(VERIF, 'known_findings.txt')
 
@@ -95,6 +95,19 @@ class Replayer:
         if is_benign_death(r):
             return None, 'benign death'
         return death_key(r, self.stack_ids), detail
+
+
+def confirm(rep, rp, text, batch_key, where):
+    """Gate 1: the case, replayed twice in fresh processes, must give one and the same
+    violation key. That key is what gets reported; it normally equals the key seen in the
+    batch, but a fresh process is the ground truth (e.g. under valgrind a batch worker may
+    die later in a unit whose first bad case a replay attributes precisely)."""
+    k1, d1 = rp.key_of(text)
+    k2, _ = rp.key_of(text)
+    if k1 is None or k1 != k2:
+        rep.nonrepro.append('key=%s %s replayed as %s / %s' % (batch_key, where, k1, k2))
+        return None, None
+    return k1, d1
 
 
 def split_plan(text):
@@ -205,6 +218,8 @@ class Report:
         self.coverage = {}
         self.assumptions = []
         self.extra = {}
+        self.minimised = 0
+        self.max_minimise = int(os.environ.get('VERIF_MAX_MINIMISE', '8'))
 
     def add_violation(self, key, detail, replay):
         if (self.prop, key) in self.known:
